@@ -127,8 +127,8 @@ def _header(deadline, rng, tier):
 SUITES = {
     'C04': [('label_scoping', _labels, 'surfacing of E400/E420 through the resolver',
              'random function bodies: <= 12 statements, 2 label names, nesting depth <= 3; gotos, conditional gotos, labels, blocks, if-blocks')],
-    'C05': [('scoping_and_skipped_declarations', _scope, 'the traversal (Analyzable impls) and the goto pruning (prepare_to_prune_at_goto, prune_at_label: HashMap/HashSet with entry/retain closures) of variable_references.rs',
-             '14 fixed programs; every body of <= 4 (thorough: <= 6) items over {declare a, declare b, use a, use b, conditional goto, label, open block, close block} with valid jumps (859 / 26448 bodies); 600 (thorough: 6000) random function bodies: <= 24 statements, nesting depth <= 3, 8 variable names, 2 parameters, 2 constants; declarations, assignments, blocks, if/else, conditional gotos, closing gotos, labels, loops; verdict by an independent definitely-declared dataflow')],
+    'C05': [('scoping_and_skipped_declarations', _scope, 'the tree walk of variable_references.rs (the Analyzable impls: where and in which order the scope-stack and pruning functions are called), and the surfacing of the errors through the resolver',
+             '14 fixed programs; every body of <= 4 (thorough: <= 6) items over {declare a, declare b, use a, use b, conditional goto, label, open block, close block} with valid jumps (947 / 30806 bodies, empty blocks included); 600 (thorough: 6000) random function bodies: <= 24 statements, nesting depth <= 3, 8 variable names, 2 parameters, 2 constants; declarations, assignments, (empty) blocks, if/else, conditional gotos, closing gotos, labels, loops; verdict by an independent definitely-declared dataflow')],
     'C06': [('statement_placement', _placement, 'surfacing of E800/E801/E840 through the resolver',
              'random function bodies: <= 12 statements, nesting depth <= 3; loop, if/else with and without braces, goto, blocks'),
             ('lint_l1800', _l1800, 'the path from linter to reported lints; typer in between',
